@@ -4,13 +4,15 @@ from .. import common, pool, pipefam
 
 RULE = ("histories of open/write/re-open on real scratch HDF5 files for 1-3 groups (prefixes); re-open configurations equal to the stored "
         "ones or differing in length (+-1), in one element, or in order, or equal to the layout of another group of the same file, for each of the gene, TE-name and window lists, incl. large "
-        "windows differing by 1; after every open the group's datasets are digested (shape, dtype, bytes) before/after; non-trivial = "
+        "windows differing by 1; one history in 15 has a group with 1025-3000 gene names, re-opened with one name changed or two swapped among the last ones / at a block boundary; after every open the group's datasets are digested (shape, dtype, bytes) before/after; non-trivial = "
         "a history with a write followed by at least one mismatching and one matching re-open; distinct = the history")
 PREFIXES = ["superfamily", "order", "other"]
 
 
-def base_cfg(r):
+def base_cfg(r, large=False):
     ng, nt, nw = r.randint(1, 5), r.randint(1, 4), r.randint(1, 4)
+    if large:          # a chromosome's worth of genes: more than any block a comparison might be cut into
+        ng = r.choice([1025, 1100, 1500, 2049, 3000])
     start = r.choice([0, 500, 250000, 10**9])
     return {"genes": ["gene_%d" % i for i in range(ng)], "tes": r.sample(["LTR", "TIR", "Gypsy", "Copia", "hAT", "Héli", "ltr"], nt),
             "windows": [start + i * r.choice([1, 500, 1000]) for i in range(nw)]}
@@ -27,10 +29,15 @@ def mutate_cfg(r, c):
         l.append(l[-1] + 7 if field == "windows" else "extra_" + field)
     elif kind == "element":
         i = r.randrange(len(l))
+        if len(l) > 64:     # large list: the last elements, the start of the last block of 2^k, anywhere
+            i = r.choice([len(l) - 1, len(l) - 2, r.randrange(len(l)), (len(l) // 1024) * 1024, (len(l) // 512) * 512 + 1, len(l) - 1 - r.randrange(40)])
         l[i] = l[i] + r.choice([1, 2, -1 if l[i] > 0 else 1]) if field == "windows" else l[i] + "x"
     else:
         if len(l) > 1:
-            i = r.randrange(len(l) - 1); l[i], l[i + 1] = l[i + 1], l[i]
+            i = r.randrange(len(l) - 1)
+            if len(l) > 64 and r.random() < 0.6:
+                i = len(l) - 2 - r.randrange(20)
+            l[i], l[i + 1] = l[i + 1], l[i]
             if l[i] == l[i + 1]:
                 l.reverse()
         else:
@@ -38,10 +45,10 @@ def mutate_cfg(r, c):
     return c, "%s:%s" % (field, kind)
 
 
-def gen_history(r):
+def gen_history(r, large=False):
     npref = r.randint(1, 3)
     prefs = PREFIXES[:npref]
-    base = {p: base_cfg(r) for p in prefs}
+    base = {p: base_cfg(r, large and p == prefs[0]) for p in prefs}
     ops, tags = [], []
     for p in prefs:
         ops.append(["open", p, base[p]]); tags.append("first")
@@ -58,6 +65,16 @@ def gen_history(r):
             ops.append(["open", p, base[q]]); tags.append("other_group_layout")
         else:
             c, tag = mutate_cfg(r, base[p])
+            if len(base[p]["genes"]) > 64 and r.random() < 0.7:      # large lists: mostly a change of ONE gene name or a swap of two
+                c = copy.deepcopy(base[p])
+                kind = r.choice(["element", "order"])
+                l = c["genes"]
+                if kind == "element":
+                    i = r.choice([len(l) - 1, len(l) - 2, r.randrange(len(l)), (len(l) // 1024) * 1024, (len(l) // 512) * 512 + 1, len(l) - 1 - r.randrange(40)])
+                    l[i] = l[i] + "x"
+                else:
+                    i = len(l) - 2 - r.randrange(20); l[i], l[i + 1] = l[i + 1], l[i]
+                tag = "genes:%s_large" % kind
             ops.append(["open", p, c]); tags.append(tag)
     return ops, tags
 
@@ -111,7 +128,7 @@ def run(chk):
     pipefam.standard_obligations(chk, "C19.v")
     n = 150 if chk.tier == "quick" else 4000
     r = chk.rng("histories")
-    hs = [gen_history(r) for _ in range(n)]
+    hs = [gen_history(r, large=(i % 15 == 7)) for i in range(n)]
     chunks = [hs[i:i + 15] for i in range(0, len(hs), 15)]
     reps = pool.run_requests([{"op": "store.histories", "histories": [h[0] for h in c]} for c in chunks], timeout=240)
     runs = []
